@@ -189,11 +189,13 @@ func c07Run(c c07Case) (*vlib.Failure, c07Stats) {
 			}
 			first := op.Frame // identity: page number == frame number
 			if nestedDone {
-				// the request's own region is the one reserved first: directly below the old cursor
+				// the request's own region is the one reserved first: it starts where the cursor stood
+				// while the request was being mapped (below the old cursor - how far below, beyond the
+				// rounded size, is the reservation code's business)
 				rs.nested = true
-				addr := cursor - uintptr(rounded.Uint64())
-				if nestedBefore != addr {
-					return vlib.Failf("%s: while the %d-page request was being mapped the reservation cursor was %#x, its region is [%#x,%#x)", when, n, nestedBefore, addr, cursor), rs
+				addr := nestedBefore
+				if addr&0xfff != 0 || addr > cursor || uint64(cursor-addr) < size {
+					return vlib.Failf("%s: while the %d-page request was being mapped the reservation cursor was %#x: not a page-aligned start of a region of at least %#x bytes below the previous cursor %#x", when, n, addr, size, cursor), rs
 				}
 				end := addr
 				if nestedErr == nil {
